@@ -149,6 +149,14 @@ def build_cases(rng, tier):
     # every symbol with distinct variables
     for name, ar in SYMS.items():
         cases.append(("symbol", node(name, *[var(i + 1) for i in range(ar)])))
+    # every symbol as the SECOND operand of a binary node and as the middle operand of a ternary node:
+    # an arm that consumes one operand too many or too few corrupts its already translated sibling
+    for name, ar in SYMS.items():
+        if name in ("Exp",):
+            continue
+        inner = node(name, *[var(i + 1) for i in range(ar)])
+        cases.append(("second-operand", node("Sub", var(9), inner)))
+        cases.append(("middle-operand", node("AddMod", var(10), inner, var(11))))
     # leaves
     for k in (1, 2, 9, 16, 17):
         cases.append(("leaf", var(k)))
